@@ -1,7 +1,8 @@
 (* C09 — every go is answered by exactly one legal bestmove, whatever the limits.
    For EVERY game, position with a legal move, limit combination (node budget, movetime, clock
    times, depth), EVERY clock oracle and EVERY stop oracle, any depth bound, cache on or off,
-   any initial killer table and any initial cache whose scores are i16 values: the output of the
+   any initial killer table and any initial cache whose scores are i16 values (and, as in
+   Search::new, no best move or score recorded yet): the output of the
    search is a (possibly empty) sequence of info lines followed by exactly one bestmove, and the
    announced move is a legal move of the position. *)
 From Coq Require Import NArith ZArith List Lia Bool FMapPositive.
@@ -38,7 +39,7 @@ Section C09.
     forall k e, PositiveMap.find k (tt mv s) = Some e -> -32768 < e_score mv e <= 32767.
 
   Theorem C09_answer : forall (s0 : St mv) (p : pos) (D : option nat),
-    best_move mv s0 = None -> tt_scores_ok s0 ->
+    best_move mv s0 = None -> best_score mv s0 = None -> tt_scores_ok s0 ->
     (exists m, In m (moves p) /\ legal p m = true) ->
     exists infos m,
       snd (run s0 p D) = infos ++ [Bestmove mv m]
